@@ -1102,6 +1102,26 @@ class C17(MsgProp):
                 txt = (ch * chars + extra).encode()
                 if len(txt) <= 255:
                     yield ("ENC 1029 i%d i%d i%d b%s" % (r.randrange(4096), r.randrange(65536), r.randrange(86400), hx(txt)), "text-limits", True)
+        # both limits at once: texts with exactly nc characters AND exactly nb bytes around (127, 255), mixed widths
+        def text_with(nc, nb, spread):
+            if nb < nc or nb > 4 * nc:
+                return None
+            w = [1] * nc
+            extra, i = nb - nc, 0
+            while extra > 0:
+                add = min(spread, extra, 3)
+                w[i % nc] = min(4, w[i % nc] + add)
+                extra -= add
+                i += 1
+            sym = {1: "a", 2: "\u00e9", 3: "\u65e5", 4: "\U0001F600"}
+            t = "".join(sym[x] for x in w)
+            return t if (len(t) == nc and len(t.encode()) == nb) else None
+        for nc in (125, 126, 127, 128):
+            for nb in (252, 253, 254, 255, 256):
+                for spread in (1, 2, 3):
+                    t = text_with(nc, nb, spread)
+                    if t is not None and nb <= 255:
+                        yield ("ENC 1029 i%d i%d i%d b%s" % (r.randrange(4096), r.randrange(65536), r.randrange(86400), hx(t.encode())), "text-both-limits", True)
         for k in (1, 5, 20, 40):
             txt = ("😀" * k + "a" * (128 - k)).encode()      # 128 characters, some of them astral
             yield ("ENC 1029 i1 i2 i3 b%s" % hx(txt), "text-limits", True)
